@@ -1,2 +1,42 @@
-(* C16 -- statement file *)
-From SV Require Import Schema.Model.
+(* C16 -- schema definitions survive conversion to text and back: the stages AFTER the regular
+   expression (partial; the regex stage itself is covered by the correspondence check only). *)
+From Coq Require Import ZArith NArith List Bool.
+From SV Require Import Base.Py Rx.Syntax Gen.Generated Schema.Model Schema.Proofs.
+Import ListNotations.
+
+(* Every description / extension text -- quotes, backslashes, text that looks like an escape, any code
+   point -- is recovered from its quoted form. *)
+Theorem C16_partial_qdstring_round_trip :
+  forall v, exists q, encode_qdstring v = Ok q /\ parse_qdstring q = Ok v.
+Proof. exact qdstring_round_trip. Qed.
+
+(* The whole extensions block: any number of X- items with distinct space-free keys, single values and
+   parenthesised lists (the empty list included), values arbitrary text. *)
+Theorem C16_partial_extensions_round_trip :
+  forall e, Forall (fun x => key_ok (fst x)) e -> NoDup (keys_of e) ->
+  exists t, print_ext e = Ok t /\ parse_extensions (Some t) = Ok e.
+Proof. exact extensions_round_trip. Qed.
+
+(* OID lists (SUP / MUST / MAY / AUX / NOT), bare or parenthesised with $ separators. *)
+Theorem C16_partial_oid_lists_round_trip :
+  forall l, l <> [] -> Forall plain l -> parse_oids (Some (encode_oids l)) = l.
+Proof. exact oids_round_trip. Qed.
+
+(* NAME lists, one quoted name or a parenthesised list. *)
+Theorem C16_partial_names_round_trip :
+  forall names, names <> [] -> Forall plain names ->
+  parse_names (Some (match names with
+                     | [n] => quote n
+                     | _ => [LP; SPC; SQ] ++ ujoin [SQ; SPC; SQ] names ++ [SQ; SPC; RP]
+                     end)) = names.
+Proof. exact names_round_trip. Qed.
+
+(* non-vacuity: a description made of a quote, a backslash and the text "\27" *)
+Example C16_example :
+  parse_qdstring [39; 92; 50; 55; 92; 53; 99; 92; 53; 99; 50; 55; 39]%N = Ok [39; 92; 92; 50; 55]%N.
+Proof. vm_compute. reflexivity. Qed.
+
+Print Assumptions C16_partial_qdstring_round_trip.
+Print Assumptions C16_partial_extensions_round_trip.
+Print Assumptions C16_partial_oid_lists_round_trip.
+Print Assumptions C16_partial_names_round_trip.
